@@ -105,7 +105,9 @@ func mergeErrChan(ctx context.Context, channels ...<-chan error) <-chan error {
 				if !ok {
 					return
 				}
-				writeError(ctx, out, e)
+				// never drop an error that was already reported,
+				// the consumer of out reads until it is closed
+				out <- e
 			}
 		}
 	}
@@ -255,7 +257,8 @@ func writeError(ctx context.Context, out chan<- error, err error) {
 	}
 }
 
-// flushErrors forwards the errors already waiting in c without blocking
+// flushErrors forwards the errors already waiting in c,
+// the consumer of out reads until it is closed
 func flushErrors(c <-chan error, out chan<- error) {
 	for {
 		select {
@@ -263,11 +266,7 @@ func flushErrors(c <-chan error, out chan<- error) {
 			if !ok {
 				return
 			}
-			select {
-			case out <- e:
-			default:
-				return
-			}
+			out <- e
 		default:
 			return
 		}
